@@ -5,7 +5,7 @@ Two layers (DESIGN.md section 4, C01):
   (1) proof      coq/theories/C01: tokens, the expression core, `pp` mirroring the visit_* methods of
                  edb/edgeql/codegen.py, a precedence-climbing `parse` driven by Gen_Grammar.v (translated
                  fail-closed from precedence.py / expressions.py / tokens.py); theorems C01_roundtrip,
-                 C01_idempotent, C01_lex_stable (+ Refuted.v witnesses for the printer's defects).
+                 C01_idempotent, C01_lex_stable (+ Refuted.v: the deliberate `x {}` == `x` normalisation).
                  Tie: correspondence -- model pp vs real generate_source, model parse vs real parser.
   (2) exploration (real code only): grammar-driven derivations from the repo's own productions,
                  upstream syntax corpora, mutation / recombination, operator-pair scope; for every accepted
@@ -123,6 +123,10 @@ def gen_explore_cases(tier, g, rnd):
     # standard library statements
     libs = lib_texts(lib.REPO, rnd, 3000 if thorough else 250)
     cases += [('block', s, 'stdlib') for s in libs]
+    # string literals: every ordered pair of character classes in every quoting style
+    cases += [(e, t, 'string-classes') for e, t in G.string_class_texts(rnd, 3 if thorough else 2)]
+    # statements in every statement position (hole x statement form, exhaustive) + two-level nesting
+    cases += [(e, t, 'stmt-nesting') for e, t in G.stmt_nest_texts(rnd, 3000 if thorough else 300)]
     # mutation / recombination
     pool = [G.core_expr(rnd, 2, 0.3) for _ in range(200)] + [s for s in stmts if len(s) < 200][:300]
     nmut = 60000 if thorough else 2000
@@ -153,6 +157,93 @@ def gen_explore_cases(tier, g, rnd):
         seen.add((e, t))
         out.append((e, t, o))
     return out
+
+
+# ----------------------------------------------------------------------------- forced grammar coverage
+
+EDGE_FILE = os.path.join(SCRATCH, 'edge_positions.json')
+
+
+def coverage_setup(S):
+    """tell the parser driver for which (production, position) pairs the child production is recorded"""
+    targets, positions = S.edge_targets()
+    os.makedirs(SCRATCH, exist_ok=True)
+    tmp = EDGE_FILE + '.%d' % os.getpid()
+    json.dump(positions, open(tmp, 'w'))
+    os.replace(tmp, EDGE_FILE)
+    os.environ['C01_EDGE_FILE'] = EDGE_FILE
+    return targets
+
+
+def coverage_state(outs):
+    prods, edges = set(), set()
+    for o in outs:
+        if o.get('acc'):
+            prods.update(o.get('prods', ()))
+            edges.update(tuple(x) for x in o.get('edges', ()))
+    return prods, edges
+
+
+def force_coverage(S, rnd, edge_targets, cases, outs, tier):
+    """Adaptive rounds: for every production / (parent, position, child) edge that no ACCEPTED text has used yet,
+    derive texts that use it (shortest context, minimal or small random fillers) until the real parser accepts one.
+    The new cases are appended to cases / outs and judged by the same monitors.  -> statistics"""
+    rounds = 8 if tier == 'thorough' else 5
+    entries = ['block', 'sdl', 'fragment', 'migration', 'extension']
+    stats = {'rounds': []}
+    seen = {(e, t) for e, t, _ in cases}
+    want_p = [pid for pid, k in sorted(S.k_of.items()) if k not in S.unobservable and S.prodlen[k] < 10 ** 9]
+    for rno in range(rounds):
+        prods, edges = coverage_state(outs)
+        miss_p = [p for p in want_p if p not in prods]
+        miss_e = [t for t in edge_targets if t not in edges]
+        stats['rounds'].append({'unreached_productions': len(miss_p), 'unreached_edges': len(miss_e)})
+        if not miss_p and not miss_e:
+            break
+        per = 2 if rno < 2 else 3
+        new = []
+        for pid in miss_p:
+            n = 0
+            for e in entries:
+                for _ in range(per):
+                    t = S.sample(e, rnd, budget=rnd.choice([0, 2, 6]), target_prod=S.k_of[pid])
+                    if t is not None and (e, t) not in seen:
+                        seen.add((e, t))
+                        new.append((e, t, 'grammar-force'))
+                        n += 1
+                if n >= 2 * per:
+                    break
+        for pid, pos, cid in miss_e:
+            n = 0
+            for e in entries:
+                for _ in range(per):
+                    t = S.sample_edge(e, rnd, pid, pos, cid, budget=rnd.choice([0, 0, 2, 4]))
+                    if t is not None and (e, t) not in seen:
+                        seen.add((e, t))
+                        new.append((e, t, 'grammar-force'))
+                        n += 1
+                if n >= per:
+                    break
+        if not new:
+            break
+        stats['rounds'][-1]['generated'] = len(new)
+        o2 = explore(new)
+        stats['rounds'][-1]['accepted'] = sum(x.get('acc', 0) for x in o2)
+        cases.extend(new)
+        outs.extend(o2)
+    prods, edges = coverage_state(outs)
+    g = S.g
+    stats['productions_observable'] = len(want_p)
+    stats['productions_reached'] = len([p for p in want_p if p in prods])
+    stats['edges_total'] = len(edge_targets)
+    stats['edges_reached'] = len([t for t in edge_targets if t in edges])
+    stats['unobservable_productions'] = sorted(' '.join(g['production_names'][S.id_of[k]]) for k in S.unobservable if k in S.id_of)
+    stats['ungeneratable_productions'] = sorted(' '.join(g['production_names'][i]) for i in S.unmapped_ids)
+    stats['unreached_productions'] = sorted(' '.join(g['production_names'][p]) for p in want_p if p not in prods)
+    un_e = [t for t in edge_targets if t not in edges]
+    stats['unreached_edges'] = ['%s[%d] <- %s' % (' '.join(g['production_names'][a]), b, ' '.join(g['production_names'][c]))
+                                for a, b, c in un_e]
+    return stats
 
 
 # ----------------------------------------------------------------------------- known findings
@@ -288,6 +379,22 @@ FINDINGS = [
             'an ALTER command with an empty command block `{ }`', 'printed with no body at all (`alter role x;`), which the grammar rejects',
             feat='alter-empty', special=lambda c, r, f: bool(re.search(r'\balter\s[^{};]*(;|$)', f.get('printed') or '', re.I)
                                                               or "Missing '{'" in (f.get('sig') or ''))),
+    Finding('C01-operator-multi-using-bare', 'reparse', f'{CG}::visit_CreateOperator',
+            'CREATE OPERATOR (not abstract) whose body holds at least two of USING <lang> OPERATOR / USING <lang> FUNCTION / USING <lang> <code> '
+            'and no other command',
+            'with no SET / annotation command the printer opens no block, yet writes every USING clause: '
+            "`create infix operator ... -> int64 using sql operator '||';using sql function 'array_cat';` -- the grammar allows a single "
+            "bare USING clause only (Unexpected keyword 'USING')",
+            feat='operator-multi-using-bare', sig=r"Unexpected keyword 'USING'",
+            printed=r"create\s[^{}]*\boperator\b[^{}]*\busing\s+\w+\s+(operator|function)\s[^{};]*;\s*using\b"),
+    Finding('C01-function-from-function-plus-body', 'same-ast|reparse', f'{CG}::_function_after_name',
+            'CREATE / ALTER FUNCTION whose body holds USING <lang> FUNCTION together with USING <lang> <code> or USING (<expr>)',
+            "the from_function branch is taken and the code / expression is dropped: `{ using sql function 'foo'; using sql $$select 1$$; }` prints "
+            "`using sql function 'foo'` (FunctionCode.code lost); with `using (1)` the language becomes EdgeQL and the print "
+            "`using edgeql function 'foo'` is rejected by the grammar",
+            feat='function-from-function-plus-body',
+            special=lambda c, r, f: (f['kind'] == 'same-ast' and bool(re.search(r'FunctionCode\.code\|str>None$|\.nativecode\|', f.get('sig') or '')))
+            or (f['kind'] == 'reparse' and 'language is not supported in USING FUNCTION' in (f.get('sig') or '') + (f.get('detail') or ''))),
     Finding('C01-partial-reserved-bare', 'reparse|same-ast', 'edb/edgeql/quote.py::needs_quoting (only RESERVED_KEYWORD is consulted)',
             'an identifier `union`, `except` or `intersect` (partial reserved keywords) that the input had to quote',
             'printed bare; in expression position the parser reads the keyword',
@@ -397,6 +504,8 @@ REPLAYS = {
     'C01-subtype-label': ('fragment', '<tuple<a: T | U>>x'),
     'C01-alter-empty-body': ('block', 'ALTER ROLE r { }'),
     'C01-partial-reserved-bare': ('block', 'SELECT `union`.age'),
+    'C01-operator-multi-using-bare': ('block', "create infix operator std::`||` (a: int64, b: int64) -> int64 { using sql operator '||'; using sql function 'array_cat'; };"),
+    'C01-function-from-function-plus-body': ('block', "create function f(a: int64) -> int64 { using sql function 'foo'; using sql $$select 1$$; };"),
     'C01-quoted-ident-bare': ('block', 'DECLARE SAVEPOINT `my name`'),
     'C01-dunder-ident-quoted': ('block', 'DROP DATABASE __edgedbtpl__'),
     'C01-cast-from-space': ('block', 'DROP CAST FROM std::BaseObject TO std::json'),
@@ -575,9 +684,8 @@ def same_failure_pred(f0):
 
 # ----------------------------------------------------------------------------- core correspondence
 
-THEOREMS = ['C01_roundtrip', 'C01_idempotent', 'C01_in_context', 'C01_lex_stable']
-REFUTED = ['C01_roundtrip_refuted', 'C01_not_eq_refuted', 'C01_shape_on_prefix_refuted',
-           'C01_detached_postfix_refuted', 'C01_lex_refuted']
+THEOREMS = ['C01_roundtrip', 'C01_image_wf', 'C01_roundtrip_wf', 'C01_idempotent', 'C01_in_context', 'C01_lex_stable']
+REFUTED = ['C01_roundtrip_refuted', 'C01_empty_shape_path_refuted']
 
 
 def gen_core_cases(tier, rnd, nops):
@@ -585,7 +693,7 @@ def gen_core_cases(tier, rnd, nops):
     terms = []
     # exhaustive small scope: every operator at the root with every prefix form / postfix form as either operand
     leaves = ['R - 0 0', 'C i 0 1', 'C i 1 3']
-    pre = ['U - R - 0 0', 'U + R - 0 0', 'U N R - 0 0', 'U E R - 0 0', 'U D R - 0 0', 'T 0 n - 7 R - 0 0', 'A R - 0 0',
+    pre = ['U - R - 0 0', 'U + R - 0 0', 'U N R - 0 0', 'U E R - 0 0', 'U D R - 0 0', 'T 0 n - 7 R - 0 0', 'T 2 n - 7 R - 0 0', 'A R - 0 0',
            'C i 1 3', 'C i 2 3', 'R - 0 1 p 0 1', 'D 1 R - 0 0 0 C i 0 1 _', 'H R - 0 0 1 4 _', 'U - U - R - 0 0',
            'T 0 n - 7 U - R - 0 0', 'A U N R - 0 0', 'U - A R - 0 0', 'I 0 R - 0 0 n - 7', 'F 1 R - 0 0 R - 1 0 R - 2 0']
     for o in range(nops):
@@ -598,7 +706,7 @@ def gen_core_cases(tier, rnd, nops):
                 # prefix over prefix: replace the innermost operand
                 terms.append(a.replace('R - 0 0', b, 1) if 'R - 0 0' in a else a)
         terms += [f'H {a} 1 4 _', f'I 0 {a} n - 7', f'I 1 {a} c - 23 1 n - 7', f'F 1 R - 1 0 {a} R - 2 0',
-                  f'F 0 R - 1 0 R - 2 0 {a}', f'F 1 R - 1 0 R - 2 0 {a}', f'A {a}', f'T 1 n - 7 {a}', f'X {a} 1 p 0 4'
+                  f'F 0 R - 1 0 R - 2 0 {a}', f'F 1 R - 1 0 R - 2 0 {a}', f'A {a}', f'T 1 n - 7 {a}', f'T 2 n - 7 {a}', f'X {a} 1 p 0 4'
                   if a[0] not in 'RQX' else f'A {a}', f'D 1 {a} 0 C i 0 1 _' if a[0] != 'D' else f'A {a}',
                   f'S T 1 {a}', f'K - 10 1 {a} 1 20 {a}', f'N 1 5 {a}']
     n = 40000 if thorough else 2000
@@ -635,12 +743,14 @@ def run_core(rep, tier, exe, man):
         if len(parts) != 5:
             dis.append({'term': t, 'what': 'model driver: ' + m})
             continue
-        mi, mb, mf, mwf, mlex = parts
+        mi, mb, mf, mwf, mimg = parts
         if r.get('err'):
             dis.append({'term': t, 'what': 'real printer raised ' + r['err']})
             continue
         st['wf' if mwf == '1' else 'not-wf'] += 1
-        st['lex_ok' if mlex == '1' else 'not-lex_ok'] += 1
+        st['image' if mimg == '1' else 'not-image'] += 1
+        if mimg == '1' and mwf != '1':
+            dis.append({'term': t, 'what': 'image holds but wf does not (contradicts C01_image_wf)'})
         if mf == '1':
             if r['items'] != mi:
                 dis.append({'term': t, 'what': 'printed tokens / spacing differ', 'text': r['text'], 'real': r['items'], 'model': mi})
@@ -653,13 +763,15 @@ def run_core(rep, tier, exe, man):
         if not r.get('pretty_same_tokens') or not r.get('pretty_same_spacing'):
             mon.append({'term': t, 'what': 'pretty and compact print differ in tokens or in where white space separates tokens',
                         'text': r.get('text')})
-        if mwf == '1' and mlex == '1':
-            st['wf-and-lex'] += 1
+        if mimg == '1':
+            if mf != '1':
+                mon.append({'term': t, 'what': 'parser-shaped tree whose printed tokens can fuse (model no_fuse = false)',
+                            'text': r.get('text')})
             if r['back'] != t:
-                mon.append({'term': t, 'what': 'tree satisfying wf does not round-trip on the real code',
+                mon.append({'term': t, 'what': 'parser-shaped tree (image) does not round-trip on the real code',
                             'text': r['text'], 'reparsed': r['back']})
             if r.get('back_pretty') != t:
-                mon.append({'term': t, 'what': 'tree satisfying wf does not round-trip through the pretty printer',
+                mon.append({'term': t, 'what': 'parser-shaped tree (image) does not round-trip through the pretty printer',
                             'text': r['text'], 'reparsed': r.get('back_pretty')})
         elif mb != t and r['back'] == t:
             st['model-fails-real-ok'] += 1
@@ -706,6 +818,33 @@ def run_core(rep, tier, exe, man):
         pst['accepted' if r['back'] != 'FAIL' else 'rejected'] += 1
         if r['back'] != m:
             pdis.append({'text': texts[i], 'real': r['back'], 'model': m})
+    # every tree the real parser produces for a core text is inside [image], unless it has an empty shape
+    # (the class of C01_roundtrip is the whole parser image minus the documented `x {}` normalisation)
+    outs = sorted({realp[i]['back'] for i, m in zip(idx, modp)
+                   if realp[i]['back'] == m and not m.startswith(('FAIL', 'UNSUPPORTED'))})
+    flags_of = []
+    for t in outs:
+        fl = {}
+        try:
+            coq_term(t, fl)
+        except Exception as ex:  # noqa: BLE001
+            pdis.append({'text': t, 'real': 'unreadable term: %r' % (ex,), 'model': ''})
+            fl = {'empty_shape': True}
+        flags_of.append(fl)
+    img = lib.run_model(exe, ['pp ' + t for t in outs])
+    for t, fl, m in zip(outs, flags_of, img):
+        parts = [x.strip() for x in m.split('|')]
+        inimg = len(parts) == 5 and parts[4] == '1'
+        if fl.get('empty_shape'):
+            pst['parsed-tree-with-empty-shape'] += 1
+            if inimg:
+                pdis.append({'text': t, 'real': 'tree with an empty shape', 'model': 'image = true'})
+        else:
+            pst['parsed-tree-in-image' if inimg else 'parsed-tree-outside-image'] += 1
+            if not inimg:
+                pdis.append({'text': t, 'real': 'tree produced by the real parser', 'model': 'image = false (class of C01_roundtrip too small)'})
+            elif len(parts) == 5 and parts[1] != t:
+                pdis.append({'text': t, 'real': 'tree produced by the real parser', 'model': 'image but model round trip gives ' + parts[1]})
     res.update({'texts': len(texts), 'texts_compared': pst['accepted'] + pst['rejected'], 'parse_stats': dict(pst),
                 'parse_disagreements': pdis})
     # lexical adjacency table vs the real lexer
@@ -732,8 +871,8 @@ def run_core(rep, tier, exe, man):
     return res
 
 
-def coq_term(t):
-    """prefix notation -> Coq term of Model.expr"""
+def coq_term(t, flags=None):
+    """prefix notation -> Coq term of Model.expr; flags['empty_shape'] is set when the term has a shape without elements"""
     toks = t.split()
     pos = [0]
 
@@ -827,7 +966,7 @@ def coq_term(t):
         if k == 'T':
             o = nxt()
             t_ = typ()
-            return f'(ECast {"true" if o == "1" else "false"} {t_} {ex()})'
+            return f'(ECast {dict(zip("012", ("CNone", "COpt", "CReq")))[o]} {t_} {ex()})'
         if k == 'D':
             cnt = int(nxt())
             e = ex()
@@ -845,6 +984,8 @@ def coq_term(t):
         if k == 'H':
             e = ex()
             cnt = int(nxt())
+            if cnt == 0 and flags is not None:
+                flags['empty_shape'] = True
             els = []
             for _ in range(cnt):
                 n = nxt()
@@ -892,18 +1033,18 @@ def run(tier):
         exprs = []
         for i in idx:
             ct = coq_term(terms[i])
-            exprs.append(f'(wf {ct}, lex_ok {ct}, no_fuse (pp_items {ct}), match parse (pp {ct}) with Some e => if wf e then 1 else 2 | None => 0 end)%nat')
+            exprs.append(f'(wf {ct}, image {ct}, no_fuse (pp_items {ct}), match parse (pp {ct}) with Some e => if wf e then 1 else 2 | None => 0 end)%nat')
         try:
             outs = lib.coq_eval('C01', 'From Coq Require Import List NArith Bool. Import ListNotations.\n'
                                        'From Verif.C01 Require Import Gen_Grammar Model.', exprs, timeout=900)
             n_coq = len(outs)
             for i, o in zip(idx, outs):
                 parts = [x.strip() for x in core['model_lines'][i].split('|')]
-                mb, mf, mwf, mlex = parts[1], parts[2], parts[3], parts[4]
+                mb, mf, mwf, mimg = parts[1], parts[2], parts[3], parts[4]
                 flags = re.findall(r'true|false', o)
                 num = re.findall(r'\b([012])\b', o.split(',')[-1])
                 ok = (len(flags) >= 3 and flags[0] == ('true' if mwf == '1' else 'false')
-                      and flags[1] == ('true' if mlex == '1' else 'false')
+                      and flags[1] == ('true' if mimg == '1' else 'false')
                       and flags[2] == ('true' if mf == '1' else 'false')
                       and bool(num) and ((num[0] == '0') == (mb == 'FAIL')))
                 if not ok:
